@@ -8,6 +8,7 @@ import (
 	"fmt"
 	"math/rand"
 	"os"
+	"os/exec"
 	"strconv"
 	"strings"
 
@@ -339,7 +340,57 @@ func runNG(enc *json.Encoder, h int, hist NGHistory, kinds []int) {
 }
 
 // RunNodeGraph executes histories (ndjson) `reps` times each and writes the trace.
-func RunNodeGraph(in, out string, reps int) error {
+// RunNodeGraph executes the histories of `in`. The PROCESS is part of the state of the code under test
+// (package-level tables, per-type caches): with procs > 1 the histories are split into procs
+// contiguous ranges and each range runs in a fresh process image of this binary, so that procs
+// different histories are the first thing a process ever does; the trace is the concatenation in order.
+func RunNodeGraph(in, out string, reps, procs, from, to int) error {
+	if procs > 1 {
+		n, err := countLines(in)
+		if err != nil {
+			return err
+		}
+		if procs > n {
+			procs = n
+		}
+		if procs > 1 {
+			errs := make(chan error, procs)
+			sem := make(chan struct{}, 8)
+			for k := 0; k < procs; k++ {
+				go func(k int) {
+					sem <- struct{}{}
+					defer func() { <-sem }()
+					a, b := k*n/procs, (k+1)*n/procs
+					cmd := exec.Command(os.Args[0], "ng-exec", "-in", in, "-out", fmt.Sprintf("%s.part%d", out, k),
+						"-reps", strconv.Itoa(reps), "-from", strconv.Itoa(a), "-to", strconv.Itoa(b))
+					cmd.Stderr = os.Stderr
+					errs <- cmd.Run()
+				}(k)
+			}
+			for k := 0; k < procs; k++ {
+				if err := <-errs; err != nil {
+					return fmt.Errorf("child process: %w", err)
+				}
+			}
+			fo, err := os.Create(out)
+			if err != nil {
+				return err
+			}
+			defer fo.Close()
+			for k := 0; k < procs; k++ {
+				pn := fmt.Sprintf("%s.part%d", out, k)
+				b, err := os.ReadFile(pn)
+				if err != nil {
+					return err
+				}
+				if _, err := fo.Write(b); err != nil {
+					return err
+				}
+				os.Remove(pn)
+			}
+			return nil
+		}
+	}
 	fi, err := os.Open(in)
 	if err != nil {
 		return err
@@ -360,6 +411,10 @@ func RunNodeGraph(in, out string, reps int) error {
 		if len(sc.Bytes()) == 0 {
 			continue
 		}
+		if h < from || (to >= 0 && h >= to) {
+			h++
+			continue
+		}
 		var hist NGHistory
 		if err := json.Unmarshal(sc.Bytes(), &hist); err != nil {
 			return fmt.Errorf("history %d: %w", h, err)
@@ -375,6 +430,23 @@ func RunNodeGraph(in, out string, reps int) error {
 		h++
 	}
 	return sc.Err()
+}
+
+func countLines(path string) (int, error) {
+	f, err := os.Open(path)
+	if err != nil {
+		return 0, err
+	}
+	defer f.Close()
+	sc := bufio.NewScanner(f)
+	sc.Buffer(make([]byte, 1<<20), 1<<26)
+	n := 0
+	for sc.Scan() {
+		if len(sc.Bytes()) > 0 {
+			n++
+		}
+	}
+	return n, sc.Err()
 }
 
 // GenNodeGraph writes seeded random histories on random DAGs (wiring only to lower ids).
@@ -404,7 +476,13 @@ func GenNodeGraph(out string, seed int64, n, steps, np, nn int) error {
 			if r.Intn(2) > 0 {
 				wires[i].B = src(nid)
 			}
-			for k := r.Intn(4); k > 0; k-- {
+			k := r.Intn(4)
+			if nid > 2 && r.Intn(5) == 0 {
+				// wide fan-in: the number of dependencies crosses the sizes at which sorting and
+				// positional comparison of dependency lists change behaviour (12, 16, 32)
+				k = 11 + r.Intn(30)
+			}
+			for ; k > 0; k-- {
 				wires[i].Arr = append(wires[i].Arr, src(nid))
 			}
 			arrLen[nid] = len(wires[i].Arr)
@@ -426,7 +504,7 @@ func GenNodeGraph(out string, seed int64, n, steps, np, nn int) error {
 				}
 				hist.Steps = append(hist.Steps, NGStep{Op: "wire", N: nid, Port: []string{"A", "B"}[r.Intn(2)], S: s})
 			case 4:
-				if arrLen[nid] < 12 {
+				if arrLen[nid] < 48 {
 					hist.Steps = append(hist.Steps, NGStep{Op: "arradd", N: nid, S: src(nid)})
 					arrLen[nid]++
 				}
